@@ -345,7 +345,11 @@ def jobs(tier):
         J.append(Job(f'Likelihood.gradient:plain_callable_location:{fam}', lambda c, f=fam: callable_parameter_refused(c, f), 'B', [f'{D}._gaussian:Gaussian._gradient', f'{D}._lognormal:Lognormal._gradient', f'{D}._cmrf:CMRF._gradient'], nnum=1))
     for form in ('scalar', 'vector'):
         J.append(Job(f'MHN.gradient:{form}:n=3', lambda c, f=form: mhn_gradient(c, f), 'B', [f'{D}._modifiedhalfnormal:ModifiedHalfNormal._gradient'], nnum=2))
-    for member in ('CalSom91', 'BivariateGaussian', 'funnel', 'mixture', 'squiggle', 'donut'):
+    import re as _re, inspect as _inspect
+    from cuqi.distribution import DistributionGallery as _DG
+    # every member the constructor knows, read from the source on each run (an earlier hand-written list had left out 'banana')
+    _members = sorted(set(_re.findall(r'distribution_name\s*==\s*["\']([^"\']+)["\']', _inspect.getsource(_DG.__init__)))) or ['CalSom91', 'BivariateGaussian', 'funnel', 'mixture', 'squiggle', 'donut', 'banana']
+    for member in _members:
         J.append(Job(f'DistributionGallery.gradient:{member}', lambda c, m_=member: gallery(c, m_), 'B', [f'{D}._custom:DistributionGallery.__init__', f'{D}._custom:DistributionGallery._mixture_grad_func'], nnum=3))
     for cfg in ('two_data_likelihoods', 'data_and_user_defined_likelihood', 'user_defined_first', 'three_likelihoods'):
         J.append(Job(f'MultipleLikelihoodPosterior.gradient:sum_over_all_densities:{cfg}', lambda c, cfg=cfg: multiple_likelihood_posterior(c, cfg), 'Pbox',
